@@ -406,7 +406,7 @@ def check_case(ctx, case):
 
 # ------------------------------------------------------------------ generators
 DIRS = ['a', 'b', 'sub', 'd.x', 'Z z', 'é']
-NAMES = ['f.txt', 'n.txt', 'g', 'h.bin', '.hid', 'x.tar.gz', 'a b.txt', 'p|q.dat', 'ü.txt', 'q"r.txt', 'N.TXT', '100%s {0}.txt']
+NAMES = ['f.txt', 'n.txt', 'g', 'h.bin', '.hid', 'x.tar.gz', 'a b.txt', 'p|q.dat', 'ü.txt', 'q"r.txt', 'N.TXT', '100%s {0}.txt', 'path']
 PATTERNS = ['none', 'first', 'first_xxxx', 'minority', 'majority_same', 'all_distinct', 'all_same_offset', 'all_but_last',
             'truncated_first', 'extended_first', 'two_of_n', 'missing']
 
